@@ -202,6 +202,10 @@ class World:
             # another session sows another function over the (still empty)
             # crop; the live object stays as it is
             ev.append(["resow_other"])
+            if self.live_ver == self.ver:
+                # the function is corrected on the live object (crop.fn = ...)
+                # and the crop sown again through it
+                ev.append(["refn"])
         return ev
 
     def apply(self, ev, finished):
@@ -356,6 +360,11 @@ class World:
                             "result %d was damaged (%s): check_bad() returned "
                             "%r and changed %r" % (j, how, bad_ids, changed())))
             new_finished.discard(j)
+        elif kind == "refn":
+            self.ver = 1 - self.ver
+            self.live.fn = self.fs[self.ver]
+            self.live.sow_combos(self.combos, verbosity=0)
+            self.live_ver = self.ver
         elif kind == "resow_other":
             import xyzpy as xyz
 
@@ -423,8 +432,10 @@ def build(cfg, hist, d, tier):
 
 
 def canon(w):
-    return "%s|%s|%s" % (fsseam.snap_hash(_stable(fsseam.snapshot(w.d))),
-                         w.live_kind, w.live_ver == w.ver)
+    # w.ver is model state: a tree that leaves a stale function on disk must
+    # not have the state after "refn" merged with the one before it
+    return "%s|%s|%s|%d" % (fsseam.snap_hash(_stable(fsseam.snapshot(w.d))),
+                            w.live_kind, w.live_ver == w.ver, w.ver)
 
 
 def expand(task):
